@@ -1122,16 +1122,18 @@ decl(struct scope *s, struct func *f)
 struct decl *
 stringdecl(struct expr *expr)
 {
-	static struct map strings;
+	static struct map pools[3];  /* one per element width: 1, 2, 4 */
+	struct map *strings;
 	struct mapkey key;
 	void **entry;
 	struct decl *d;
 
-	if (!strings.len)
-		mapinit(&strings, 64);
 	assert(expr->kind == EXPRSTRING);
-	mapkey(&key, expr->u.string.data, expr->u.string.size);
-	entry = mapput(&strings, &key);
+	strings = &pools[expr->type->base->size / 2];
+	if (!strings->len)
+		mapinit(strings, 64);
+	mapkey(&key, expr->u.string.data, expr->type->size);
+	entry = mapput(strings, &key);
 	d = *entry;
 	if (!d) {
 		d = mkdecl("string", DECLOBJECT, expr->type, QUALNONE, LINKNONE);
